@@ -17,6 +17,7 @@ PLAN = {
                       codec(variant="asan", part="heap", tiers=["thorough"]),
                       codec(variant="checkptr", part="heap", tiers=["thorough"])]},
     "C03": {"steps": [net(), net(variant="race", tiers=["thorough"])]},
+    "C04": {"steps": [net(), net(variant="race", tiers=["thorough"])]},
     "C06": {"steps": [net(), net(variant="race", tiers=["thorough"])]},
     "C07": {"steps": [net()]},
     "C08": {"steps": [codec()]},
